@@ -56,7 +56,7 @@ func main() {
 		"input peer lists hold unique ids and do not contain the node itself")
 	r.MinShapes(300)
 
-	n := r.N(60000, 2000000)
+	n := r.N(60000, 1200000)
 	r.Parallel(n, func(c *vk.Case) {
 		rng := c.Rng
 		sh := config.ShardingConfig{
